@@ -221,11 +221,20 @@ def run(prog, ctx):
         tmf = Terms(fi.node)
         withv, bare, fall = R.return_paths(fi)
         signs = []
-        for r in withv:
-            t = tmf.term(r.ast.value)
-            if t == ("c", "None"):
-                continue
-            signs.append((sign_of(t, ctx.assume), r))
+        ps4 = R.path_summaries(fi)
+        if ps4 is not None and withv:
+            # loop-free: the value returned on each path with the locals of that path substituted (temporaries, values chosen in
+            # branches and re-bindings do not matter)
+            for (_f, v_) in ps4:
+                if v_ in (("c", "None"), ("<falls-off>",)):
+                    continue
+                signs.append((sign_of(v_, ctx.assume), withv[0]))
+        else:
+            for r in withv:
+                t = tmf.term(r.ast.value)
+                if t == ("c", "None"):
+                    continue
+                signs.append((sign_of(t, ctx.assume), r))
         n4 += 1
         bad = [(s, r) for (s, r) in signs if not is_nonneg(s)]
         ctx.check(not bad and bool(signs), "C13.D4", R.key_of(fi, "nonneg-return"), fi.loc(bad[0][1].ast) if bad else fi.loc(),
